@@ -810,13 +810,17 @@ pub fn run(args: &[String], which: &str) -> i32 {
                     Ok(Ok(s2)) => {
                         let text2 = serde_json::to_string(&s2).unwrap_or_default();
                         if &text2 != text1 {
-                            let what = if text1.contains("\"namespace\"") || c.text.contains("\"namespace\":\"\"") || c.text.contains("\".") { "reparse-differs (namespaces involved)" } else { "reparse-differs" };
+                            // the recorded finding needs a type that is explicitly put into the null namespace inside a namespaced one
+                            let what = if c.text.contains("\"namespace\":\"\"") || c.text.contains("\".") { "reparse-differs (namespaces involved)" } else { "reparse-differs" };
                             out.oracle_fail(what, &format!("serialized {} re-parses and serializes as {}", trunc(text1, 500), trunc(&text2, 500)), &case);
                         } else if s2 != *schema {
                             out.oracle_fail("reparse-not-equal", "the re-parsed schema is not == the original", &case);
                         }
                     }
-                    Ok(Err(e)) => out.oracle_fail("reparse-rejected", &format!("serialized {} does not parse: {e}", trunc(text1, 500)), &case),
+                    Ok(Err(e)) => {
+                        let what = if c.text.contains("\"namespace\":\"\"") || c.text.contains("\".") { "reparse-rejected (namespaces involved)" } else { "reparse-rejected" };
+                        out.oracle_fail(what, &format!("serialized {} does not parse: {e}", trunc(text1, 500)), &case)
+                    }
                     Err(()) => out.oracle_fail("panic", "re-parsing panicked", &case),
                 }
                 // the container header embeds this JSON
@@ -825,7 +829,8 @@ pub fn run(args: &[String], which: &str) -> i32 {
                         Ok(Ok(t)) => {
                             if &t != text1 {
                                 // (a re-parse difference shows up here as well; report it under its own class)
-                                out.oracle_fail("header-schema-differs", &format!("the file header's schema serializes as {}", trunc(&t, 500)), &case);
+                                let what = if c.text.contains("\"namespace\":\"\"") || c.text.contains("\".") { "header-schema-differs (namespaces involved)" } else { "header-schema-differs" };
+                                out.oracle_fail(what, &format!("the file header's schema serializes as {}", trunc(&t, 500)), &case);
                             }
                         }
                         Ok(Err(e)) => out.oracle_fail("header-schema-rejected", &format!("a file written with the schema cannot be opened: {e}"), &case),
@@ -876,7 +881,13 @@ pub fn run(args: &[String], which: &str) -> i32 {
                 let mut want = String::new();
                 if spec_pcf(&j, &None, &mut vec![], &mut want).is_some() {
                     if &want != form {
-                        let class = if c.text.contains("logicalType") { "pcf-differs-from-spec: logical type" } else { "pcf-differs-from-spec" };
+                        // the recorded finding: a primitive that carried a (stripped) logicalType keeps its object form
+                        // `{"type":"int"}`; any OTHER difference is not that finding
+                        let mut reduced = form.clone();
+                        for p in ["null", "boolean", "int", "long", "float", "double", "bytes", "string"] {
+                            reduced = reduced.replace(&format!("{{\"type\":\"{p}\"}}"), &format!("\"{p}\""));
+                        }
+                        let class = if c.text.contains("logicalType") && reduced == want { "pcf-differs-from-spec: logical type" } else { "pcf-differs-from-spec" };
                         out.oracle_fail(class, &format!("canonical_form = {}, the specification's rules give {}", trunc(form, 500), trunc(&want, 500)), &case);
                     }
                 }
@@ -884,13 +895,20 @@ pub fn run(args: &[String], which: &str) -> i32 {
                 match catch(|| Schema::parse_str(form).map(|s| s.canonical_form())) {
                     Ok(Ok(again)) => {
                         if &again != form {
-                            let class = if c.text.contains("logicalType") { "pcf-not-idempotent: logical type" }
+                            let mut reduced = form.clone();
+                            for p in ["null", "boolean", "int", "long", "float", "double", "bytes", "string"] {
+                                reduced = reduced.replace(&format!("{{\"type\":\"{p}\"}}"), &format!("\"{p}\""));
+                            }
+                            let class = if c.text.contains("logicalType") && again == reduced { "pcf-not-idempotent: logical type" }
                                 else if c.text.contains("\"namespace\":\"\"") || c.text.contains("\".") { "pcf-not-idempotent: null namespace inside a namespace" }
                                 else { "pcf-not-idempotent" };
                             out.oracle_fail(class, &format!("{} canonicalises again as {}", trunc(form, 400), trunc(&again, 400)), &case);
                         }
                     }
-                    Ok(Err(e)) => out.oracle_fail("pcf-does-not-parse", &format!("{} : {e}", trunc(form, 400)), &case),
+                    Ok(Err(e)) => {
+                        let class = if c.text.contains("\"namespace\":\"\"") || c.text.contains("\".") { "pcf-does-not-parse: null namespace inside a namespace" } else { "pcf-does-not-parse" };
+                        out.oracle_fail(class, &format!("{} : {e}", trunc(form, 400)), &case)
+                    }
                     Err(()) => out.oracle_fail("panic", "parsing a canonical form panicked", &case),
                 }
                 // fingerprints
